@@ -113,8 +113,12 @@ where
         let mut populations = state.populations_mut();
         let mut rng = state.random_mut();
 
-        let mut mutations = populations.pop();
-        let bases = populations.current();
+        let mut mutations = populations
+            .try_pop()
+            .wrap_err("mutated individuals are missing")?;
+        let bases = populations
+            .get_current()
+            .wrap_err("base population is missing")?;
 
         for (mutation, base) in multizip((mutations.as_solutions_mut(), bases.as_solutions())) {
             let index = rng.gen_range(0..problem.dimension());
